@@ -381,7 +381,7 @@ func (fr *Frame) applyContract(ct *Contract, key string, sig *types.Signature, f
 				if fn != nil && !ct.Trusted && i < len(fn.Params) && !paramInvoked(fn.Params[i], 0) {
 					continue // the callee only stores/captures the function value; it is not run during this call
 				}
-				post = fr.runCallbackLoop(mc, ct, pn[i], post, pos, key)
+				post = fr.runCallbackLoop(mc, ct, pn[i], post, pos, key, names)
 				if post == nil {
 					return nil, nil
 				}
@@ -608,7 +608,7 @@ func (fr *Frame) checkFrame(ct *Contract, end *State, names map[string]tval) {
 			listed[g] = true
 		}
 		for _, g := range sortedKeys(end.ghost) {
-			if listed[g] || g == "epoch" || strings.HasPrefix(g, "visited") {
+			if listed[g] || g == "epoch" || strings.HasPrefix(g, "visited") || u.protocolGhost(g) {
 				continue
 			}
 			old, ok := fr.entry.ghost[g]
@@ -626,6 +626,12 @@ func (fr *Frame) checkFrame(ct *Contract, end *State, names map[string]tval) {
 			return
 		}
 		u.oblige(fr, "frame", fr.fn.Pos(), "calls with unknown effects, but the contract has no 'modifies *'", end.pc, False, false)
+		return
+	}
+	if u.implOf != "" && strings.Contains(u.rootKey, "@") {
+		// impl-variant unit of a method that has a contract of its own: its exact footprint (which includes the
+		// implementation's private state, invisible to the interface's callers) is checked by the own-contract unit
+		u.note("frame of %s not checked against the interface contract: checked against the method's own contract", u.rootKey)
 		return
 	}
 	byKey := map[string][]footprint{}
@@ -665,7 +671,7 @@ func (fr *Frame) checkFrame(ct *Contract, end *State, names map[string]tval) {
 // runCallbackLoop models a callee that invokes the closure mc zero or more times (iterators, walkers):
 // the closure body is verified like a loop body against the caller's "callback <name> invariant" clauses,
 // under the callee's assumptions about the callback arguments ("callback <param> assume ...").
-func (fr *Frame) runCallbackLoop(cv *closureVal, calleeCt *Contract, paramName string, st *State, pos token.Pos, calleeKey string) *State {
+func (fr *Frame) runCallbackLoop(cv *closureVal, calleeCt *Contract, paramName string, st *State, pos token.Pos, calleeKey string, calleeNames map[string]tval) *State {
 	u := fr.u
 	fn := cv.fn
 	mc := cv.mc
@@ -703,6 +709,9 @@ func (fr *Frame) runCallbackLoop(cv *closureVal, calleeCt *Contract, paramName s
 			parent: fr, guardedVals: map[ssa.Value]guardedVal{}, mc: mc, mcFrame: cv.frame}
 		child.contract = u.cs.ByKey[child.key]
 		names := map[string]tval{}
+		for k, v := range calleeNames {
+			names[k] = v // the callee's receiver and parameters (entry values), for its "callback P assume" clauses
+		}
 		s = s.clone()
 		// callbacks may receive objects allocated by the callee
 		a := u.fresh("alloc", SInt)
@@ -849,7 +858,7 @@ func paramInvoked(p *ssa.Parameter, depth int) bool {
 	return false
 }
 
-func closureInvokedHere(mc *ssa.MakeClosure, depth int) bool {
+func closureInvokedHere(mc ssa.Value, depth int) bool {
 	if depth > 4 {
 		return true
 	}
@@ -861,6 +870,11 @@ func closureInvokedHere(mc *ssa.MakeClosure, depth int) bool {
 		switch x := r.(type) {
 		case *ssa.DebugRef:
 		case *ssa.Return:
+		case *ssa.ChangeType:
+			// func literal converted to a named func type (http.HandlerFunc(...)): same value
+			if closureInvokedHere(x, depth+1) {
+				return true
+			}
 		case *ssa.Store:
 			if _, ok := x.Addr.(*ssa.Alloc); !ok {
 				return true
